@@ -1,6 +1,8 @@
 (* C02 correspondence: one TOML document, lexed (c_raw), with what config.Parse returned for it
    (c_impl: None = error, Some = every field of every Interface incl. the plugin list, and Debug). *)
-From CR Require Export Model.Config Model.ConfigSpec Model.ConfigWf.
+From CR Require Export Model.Config.
+From CR Require Export Model.ConfigSpec.
+From CR Require Export Model.ConfigWf.
 Local Open Scope Z_scope.
 
 Record case := mkCase { c_raw : raw_config; c_impl : option config }.
